@@ -9,13 +9,17 @@ Local Open Scope N_scope.
 Inductive tok :=
 | TP (c : N)        (* punctuator; the spread punctuator is a word, see below *)
 | TW (w : str)      (* Name, IntValue, FloatValue or "..." : a maximal run of word characters *)
-| TS (v : str).     (* StringValue, by its value *)
+| TS (v : str)      (* StringValue, by its value *)
+| TR (t : strtok).  (* StringValue as the lexer finds it, before a reading ([Spec.value_spec] or
+                       [Spec.value_nitrogql]) is applied: see [read] *)
 
 Definition tok_eqb (a b0 : tok) : bool :=
   match a, b0 with
   | TP x, TP y => x =? y
   | TW x, TW y => str_eqb x y
   | TS x, TS y => str_eqb x y
+  | TR (TNormal x), TR (TNormal y) => str_eqb x y
+  | TR (TBlock x), TR (TBlock y) => str_eqb x y
   | _, _ => false
   end.
 
@@ -58,14 +62,19 @@ Fixpoint lexf (fuel : nat) (x : str) : option (list tok) :=
           else if punct c then omap (cons (TP c)) (lexf f r)
           else if c =? 34 then
             match lex_string x with
-            | Some (t, rest) => omap (cons (TS (value_nitrogql t))) (lexf f rest)
+            | Some (t, rest) => omap (cons (TR t)) (lexf f rest)
             | None => None
             end
           else if wordc c then let p := span_word x in omap (cons (TW (fst p))) (lexf f (snd p))
           else None
       end
   end.
-Definition lex (x : str) : option (list tok) := lexf (length x) x.
+(** a reading of string tokens: the specification's value, or nitrogql's *)
+Definition read (val : strtok -> str) (t : tok) : tok := match t with TR k => TS (val k) | _ => t end.
+Definition lex_with (val : strtok -> str) (x : str) : option (list tok) := omap (map (read val)) (lexf (length x) x).
+(** nitrogql's reading (block strings raw) / the specification's (BlockStringValue) *)
+Definition lex (x : str) : option (list tok) := lex_with value_nitrogql x.
+Definition lex_spec (x : str) : option (list tok) := lex_with value_spec x.
 
 (** *** classification of words *)
 Definition is_digit_c (c : N) : bool := (48 <=? c) && (c <=? 57).
@@ -120,6 +129,10 @@ Arguments tw x%string_scope.
 Definition t_id (i : ident) : list tok := [TW (iname i)].
 Definition t_opt {A} (f : A -> list tok) (x : option A) : list tok := match x with Some a => f a | None => [] end.
 
+(** [sn]: how the string values of the document are read (as they are, or normalised) *)
+Section Tokens.
+Variable sn : str -> str.
+
 Fixpoint t_type (t : ty) : list tok :=
   match t with
   | TNamed n => t_id n
@@ -132,7 +145,7 @@ Fixpoint t_value (v : value) : list tok :=
   | VVar n _ => [TP 36; TW n]
   | VInt _ l => [TW l]
   | VFloat _ l => [TW l]
-  | VString _ x => [TS x]
+  | VString _ x => [TS (sn x)]
   | VBool _ b0 => [if b0 then tw "true" else tw "false"]
   | VNull _ => [tw "null"]
   | VEnum _ x => [TW x]
@@ -169,9 +182,9 @@ Definition t_fragdef (f : fragdef) : list tok :=
 (** an #import line is a comment to a GraphQL lexer *)
 Definition t_execdef (d : execdef) : list tok :=
   match d with DOp o => t_opdef o | DFrag f => t_fragdef f | DImport _ => [] end.
-Definition tokens_of_opdoc (d : opdoc) : list tok := flat_map t_execdef (od_defs d).
+Definition tokens_opdoc (d : opdoc) : list tok := flat_map t_execdef (od_defs d).
 
-Definition t_desc (d : option desc) : list tok := match d with Some x => [TS (desc_value x)] | None => [] end.
+Definition t_desc (d : option desc) : list tok := match d with Some x => [TS (sn (desc_value x))] | None => [] end.
 Definition t_inputval (i : inputvaldef) : list tok :=
   t_desc (iv_desc i) ++ t_id (iv_name i) ++ TP 58 :: t_type (iv_type i) ++ t_default (iv_default i) ++ t_dirs (iv_dirs i).
 Definition t_argsdef (l : list inputvaldef) : list tok := TP 40 :: flat_map t_inputval l ++ [TP 41].
@@ -220,4 +233,16 @@ Definition t_tsdef (x : tsdef) : list tok :=
   | TSSchemaExt e => tw "extend" :: tw "schema" :: t_dirs (se_dirs e) ++ t_rootops (se_ops e)
   | TSTypeExt t => t_typeext t
   end.
-Definition tokens_of_tsdoc (d : tsdoc) : list tok := flat_map t_tsdef d.
+Definition tokens_tsdoc (d : tsdoc) : list tok := flat_map t_tsdef d.
+
+End Tokens.
+
+(** string values as nitrogql holds them *)
+Definition tokens_of_tsdoc : tsdoc -> list tok := tokens_tsdoc (fun x => x).
+Definition tokens_of_opdoc : opdoc -> list tok := tokens_opdoc (fun x => x).
+(** string values as a GraphQL implementation reads them from the text the value came from:
+    nitrogql keeps the raw text of a block string (and prints every value with a line feed as a
+    block string), so a multi-line value stands for its BlockStringValue *)
+Definition snorm (v : str) : str := if existsb (N.eqb 10) v then block_string_value v else v.
+Definition tokens_spec_tsdoc : tsdoc -> list tok := tokens_tsdoc snorm.
+Definition tokens_spec_opdoc : opdoc -> list tok := tokens_opdoc snorm.
